@@ -86,7 +86,7 @@ func checkCharts(c *vlib.Case, api string, s *surface, opts string, charts []*mo
 
 func secDecompose(r *vlib.Run) {
 	big := !r.Quick()
-	r.Section("decompose", r.N(4000, 16000), vlib.SectionOpts{}, func(c *vlib.Case) {
+	r.Section("decompose", r.N(4000, 16000), vlib.SectionOpts{}, replayable(r, func(c *vlib.Case) {
 		rng := c.Rng
 		s := genManifold(rng, big && rng.Intn(6) == 0)
 		if s == nil {
@@ -165,12 +165,12 @@ func secDecompose(r *vlib.Run) {
 					map[string]interface{}{"input": s.desc, "disc_faces_hex": ref.HexTris(dt, 64)})
 			}
 		}
-	})
+	}))
 
 	// The sphere-closing split on degenerate-but-valid closed surfaces: flat
 	// (coplanar) tetrahedra are simplicial closed manifolds with non-degenerate
 	// faces whose base carries exactly half of the area.
-	r.Section("decompose-flat", r.N(400, 2000), vlib.SectionOpts{}, func(c *vlib.Case) {
+	r.Section("decompose-flat", r.N(400, 2000), vlib.SectionOpts{}, replayable(r, func(c *vlib.Case) {
 		rng := c.Rng
 		a := float64(2 + 2*rng.Intn(8))
 		// apex strictly inside the base triangle (0,0) (a,0) (0,a), dyadic
@@ -200,11 +200,11 @@ func secDecompose(r *vlib.Run) {
 		c.Count("decompose.closed_inputs", 1)
 		checkCharts(c, "model3d.MeshToPlaneGraphs", s, "flat", charts, 0, 0)
 		c.Nontrivial(s.desc)
-	})
+	}))
 }
 
 func secSplit(r *vlib.Run) {
-	r.Section("split", r.N(3000, 10000), vlib.SectionOpts{}, func(c *vlib.Case) {
+	r.Section("split", r.N(3000, 10000), vlib.SectionOpts{}, replayable(r, func(c *vlib.Case) {
 		rng := c.Rng
 		s := genDisc(rng, r.N(12, 30))
 		if s == nil {
@@ -245,5 +245,5 @@ func secSplit(r *vlib.Run) {
 		}
 		c.Nontrivial(s.desc + "|split|" + opts)
 		c.Sample("split", 2, map[string]interface{}{"input": s.desc, "options": opts, "parts": len(parts)})
-	})
+	}))
 }
